@@ -51,7 +51,11 @@ def deep_family(h, body, depth=0, seen=None):
         for bb in m.live_blocks():
             for st in m.blocks[bb]['stmts']:
                 rv = st.get('rv') or {}
-                for o in rv.get('ops', []) if isinstance(rv, dict) else []:
+                if not isinstance(rv, dict):
+                    continue
+                # function items used as values: aggregate operands, plain uses, fn-pointer casts
+                cands = list(rv.get('ops', [])) + [rv[k_] for k_ in ('use', 'op') if isinstance(rv.get(k_), dict)]
+                for o in cands:
                     if 'k' in o and (o['k'].get('fn') or '').startswith('tonic_health::server'):
                         refs.add(o['k']['fn'])
         for fn in sorted(refs):
@@ -249,7 +253,7 @@ def run(R):
             okg = False
             if len(g) == 1:
                 key = trace(h, F, g[0][0], g[0][0].origin(g[0][2]['args'][1]))
-                okg = mentions_field(key, 'service') and lock_of(resolve_env(h, g[0][0], g[0][0].origin(g[0][2]['args'][0]))) in ('read', 'write')
+                okg = mentions_field(key, 'service') and lock_of(resolve_env(h, g[0][0], g[0][0].origin(g[0][2]['args'][0]), within=F)) in ('read', 'write')
             return F, g, okg
 
         def from_stored_rx(F, g, b_, op_):
@@ -262,6 +266,13 @@ def run(R):
                 # rooted in a parameter of b_: b_ (or its function) must be handed over as a callable somewhere in the family
                 owner = b_.path
                 for m in F:
+                    for bb in m.live_blocks():
+                        for st in m.blocks[bb]['stmts']:
+                            rv = st.get('rv') or {}
+                            if isinstance(rv, dict):
+                                for o in list(rv.get('ops', [])) + [rv[k_] for k_ in ('use', 'op') if isinstance(rv.get(k_), dict)]:
+                                    if 'k' in o and re.sub(r'::<[^:]*>$', '', o['k'].get('fn') or '') == owner:
+                                        return True
                     for bb, t in m.calls():
                         for a in t['args']:
                             if 'k' in a and re.sub(r'::<[^:]*>$', '', a['k'].get('fn') or '') == owner:
